@@ -437,4 +437,99 @@ theorem loadF_rel (hm : m.descend = true) : ∀ fuel, RecRel fs lim (loadF fs li
           simp only [RelOut, h1, h2, h3, and_self]
 end
 
+section
+variable (fs : FS) (lim : Limits) (m : Mode)
+
+/-! ### More fuel never changes a result -/
+
+def RecLe (rec rec' : Rec) : Prop := ∀ p f stk d st r, rec p f stk d st = some r → rec' p f stk d st = some r
+
+theorem descend_le (rec rec' : Rec) (h : RecLe rec rec') (rng : Rng) (p : Path) (f : File)
+    (stk : List Path) (depth : Nat) (a a' : Acc) (e : descend lim m rec rng p f stk depth a = some a') :
+    descend lim m rec' rng p f stk depth a = some a' := by
+  unfold descend at e ⊢
+  split
+  · rename_i hc; simp only [hc, if_true] at e; exact e
+  · rename_i hc
+    simp only [hc] at e
+    cases hr : rec p f stk (depth + 1) a.st with
+    | none => rw [hr] at e; simp at e
+    | some r => rw [hr] at e; rw [h _ _ _ _ _ _ hr]; exact e
+
+theorem single_le (rec rec' : Rec) (h : RecLe rec rec') (base : Path) (rng : Rng) (p : Path)
+    (stk : List Path) (depth : Nat) (a a' : Acc)
+    (e : single fs lim m rec base rng p stk depth a = some a') :
+    single fs lim m rec' base rng p stk depth a = some a' := by
+  unfold single at e ⊢
+  simp only at e ⊢
+  split
+  · rename_i hc; simp only [hc, if_true] at e; exact e
+  rename_i hc1
+  split
+  · rename_i hc; simp only [hc1, hc, if_true] at e; exact e
+  rename_i hc2
+  split
+  · rename_i hc; simp only [hc1, hc2, hc, if_true] at e; exact e
+  rename_i hc3
+  simp only [hc1, hc2, hc3] at e
+  split
+  · rename_i cf hcf
+    simp only [hcf] at e
+    split
+    · rename_i hd; simp only [hd, if_true] at e; exact descend_le lim m rec rec' h rng p cf stk depth a a' e
+    · rename_i hd; simp only [hd] at e; exact e
+  · rename_i hcf
+    simp only [hcf] at e
+    split
+    · rename_i hf; simp only [hf] at e; exact e
+    · rename_i f hf
+      simp only [hf] at e
+      split
+      · rename_i hs; simp only [hs, if_true] at e; exact e
+      · rename_i hs; simp only [hs, if_false] at e
+        exact descend_le lim m rec rec' h rng p f stk depth _ a' e
+
+theorem runItems_le (rec rec' : Rec) (h : RecLe rec rec') (base : Path) (stk : List Path) (depth : Nat)
+    (its : List Item) (a a' : Acc) (e : runItems fs lim m rec base stk depth its a = some a') :
+    runItems fs lim m rec' base stk depth its a = some a' := by
+  induction its generalizing a with
+  | nil => exact e
+  | cons it rest ih =>
+    cases it with
+    | err x => simp only [runItems] at e ⊢; exact ih _ e
+    | tgt rng p =>
+      simp only [runItems] at e ⊢
+      cases hs : single fs lim m rec base rng p stk depth a with
+      | none => rw [hs] at e; simp at e
+      | some a1 =>
+        rw [hs] at e
+        rw [single_le fs lim m rec rec' h base rng p stk depth a a1 hs]
+        exact ih a1 e
+
+theorem loadF_succ : ∀ fuel, RecLe (loadF fs lim m fuel) (loadF fs lim m (fuel + 1)) := by
+  intro fuel
+  induction fuel with
+  | zero => intro p f stk d st r e; simp [loadF] at e
+  | succ fuel ih =>
+    intro p f stk d st r e
+    unfold loadF at e ⊢
+    split
+    · rename_i hc; simp only [hc, if_true] at e; exact e
+    · rename_i hc
+      simp only [hc] at e
+      simp only at e ⊢
+      cases hr : runItems fs lim m (loadF fs lim m fuel) p (p :: stk) d (items fs p f)
+          ⟨⟨f, [], []⟩, f.perrs.map (parseErr p), { st with seen := p :: st.seen }⟩ with
+      | none => rw [hr] at e; simp at e
+      | some a =>
+        rw [hr] at e
+        rw [runItems_le fs lim m _ _ ih p (p :: stk) d _ _ a hr]
+        exact e
+
+theorem loadF_mono (fuel fuel' : Nat) (hle : fuel ≤ fuel') : RecLe (loadF fs lim m fuel) (loadF fs lim m fuel') := by
+  induction hle with
+  | refl => intro _ _ _ _ _ _ e; exact e
+  | step _ ih => intro p f stk d st r e; exact loadF_succ fs lim m _ p f stk d st r (ih p f stk d st r e)
+end
+
 end HL.Lemmas.Loader
